@@ -120,6 +120,19 @@ class _Processor:
                 finished_when=time.time_ns(),
                 reporting_done=True,
             )
+        except asyncio.CancelledError as exc:
+            current_task = asyncio.current_task()
+            if current_task is None or getattr(current_task, "cancelling", lambda: 1)() > 0:
+                raise  # the processing of the message is being cancelled (e.g. worker shutdown)
+            # nobody has cancelled the processing: the cancellation comes from the inside of
+            # the actor (e.g. it has awaited a cancelled future) - that's a failure of the actor
+            exception = exc  # type: ignore[assignment]
+            success = False
+            logger.debug(
+                "Actor '{actor_name}' was cancelled from the inside on message {message_id}.",
+                extra=logger_extra,
+                exc_info=exc,
+            )
         except Exception as exc:  # noqa: BLE001
             exception = exc
             success = False
